@@ -54,7 +54,7 @@ let file_exec (f : string array) : string =
   | "stage" ->
     cur := df_stage !cur (encode_record (rec_of f.(2) f.(3) f.(4) f.(5))); ""
   | "flushfail" ->   (* the back-end refused the write of the staged records: they are dropped, nothing else changed *)
-    cur := { !cur with df_staged = [] }; "err io"
+    cur := df_refuse !cur; "err io"
   | "flush" ->
     let (f', ps) = df_flush crc !cur in
     cur := f';
